@@ -23,7 +23,7 @@ Definition check_class (k : string) (us : list unit) : bool := list_eqb unit_eqb
 Definition check_const (k : string) (v : Qc) : bool :=
   match lookupc k constants with Some c => Qceqb c v | None => false end.
 
-Definition tol : Qc := qc 1 1000000000000.   (* 1e-12 relative *)
+Definition tol : Qc := qc 1 100000000000.   (* 1e-11 relative *)
 Definition unit_named (k : string) (nm : string) : unit :=
   match find (fun u => String.eqb (uname u) nm) (cls k) with Some u => u | None => mkUnit "" [] (Q2Qc 0) (Q2Qc 0) end.
 
